@@ -14,7 +14,7 @@ class Check(RuntimeCheck):
     prop = 'C08'
     design_ref = 'DESIGN.md §4.4, §5 C08'
     theorems = ['evalCall_reasons', 'C08_call_logs', 'C08_method_call_logs', 'C08_user_panic_not_recorded',
-                'C08_mock_panic_recorded', 'C08_teardown_forwards', 'LogLe.refl', 'LogLe.trans', 'C08_step_log_append_only', 'C08_log_append_only', 'C08_source_error_path', 'C08_source_report_path', 'C08_source_teardown_forwards', 'C08_source_responder_errors_are_errors']
+                'C08_mock_panic_recorded', 'C08_teardown_forwards', 'LogLe.refl', 'LogLe.trans', 'C08_step_log_append_only', 'C08_log_append_only', 'C08_source_error_path', 'C08_source_report_path', 'C08_source_teardown_forwards', 'C08_source_responder_errors_are_errors', 'C08_source_nostd_error_path', 'C08_source_nostd_clone_errors_reported']
 
     def par_errors(self, rep, tier, seed):
         """several threads hit mock-induced panics at the same time (every panic is swallowed at the thread boundary): under every
